@@ -246,6 +246,9 @@ StringDictionaryHASHHF::StringDictionaryHASHHF(IteratorDictString *it, uint len,
     builder->insertEndingSubstr(&codeSubstr, &ptrSubstr, &textSubstr,
                                 &lenSubstr);
 
+  // The closing byte is saved with the sequence: it must not be left
+  // uninitialised
+  textStrings[bytesStrings] = 0;
   bytesStrings++;
 
   table = builder->getTable();
@@ -332,7 +335,9 @@ IteratorDictString *StringDictionaryHASHHF::extractTable() {
   uchar *tmp = new uchar[4 * maxlength + table->getK()];
 
   for (uint i = 1; i <= elements; i++) {
-    uint remain = maxlength;
+    // Same reading window as extract(): compressed strings can be longer than
+    // maxlength and chunks are read in advance
+    uint remain = maxcomplength + 4;
     uint pos = hash->getValue(i);
     ChunkScan chunk = {0, 0, textStrings + pos, remain, tmp, 0, 0, 1};
 
